@@ -307,6 +307,30 @@ GOOD = {
 }
 
 
+_INTENT_OF = {"hi": "express greeting", "hello there": "express greeting", "how much is it": "ask price",
+              "what can you do": "ask capabilities"}
+
+
+def good_answer(kind, prompt):
+    """A well-formed completion for the call kind (what a cooperative LLM would return)."""
+    if kind in ("user_intent", "single_call", "v2_user_intent"):
+        p = prompt if isinstance(prompt, str) else json.dumps(prompt)
+        import re
+
+        said = re.findall(r'user (?:said |action: user said )?"([^"\n]*)"', p)
+        intent = _INTENT_OF.get(said[-1]) if said else None
+        if intent:
+            if kind == "user_intent":
+                return "  " + intent
+            if kind == "v2_user_intent":
+                return "user " + intent.replace("express", "expressed").replace("ask", "asked about")
+            flow = {"express greeting": 'bot express greeting\n  "Hey there!"',
+                    "ask price": 'bot inform price\n  "It is free."',
+                    "ask capabilities": 'bot inform capabilities\n  "I can talk."'}[intent]
+            return "  " + intent + "\n" + flow
+    return GOOD.get(kind, GOOD["other"])
+
+
 def _mk_llm(mode, subst, every):
     from typing import Any, List, Mapping, Optional
 
@@ -334,7 +358,7 @@ def _mk_llm(mode, subst, every):
                 text = self.every[k % len(self.every)]
                 hostile = True
             else:
-                text = GOOD.get(kind, GOOD["other"])
+                text = good_answer(kind, prompt)
                 hostile = False
             self.calls.append({"i": k, "kind": kind, "hostile": hostile, "text": text if hostile else None})
             return text
@@ -395,7 +419,8 @@ def run_conversation(case, cfg_cache):
         res["fail"] = {"kind": "init-raised", "exc": type(e).__name__, "msg": str(e)[:300]}
         return res
     v2 = MODES[mode]["v"] == 2
-    history = [] if v2 else [{"role": "context", "content": dict(CTX)}]
+    # (a context message in passthrough mode is forwarded to the LLM as a chat message of unknown type)
+    history = [] if (v2 or mode == "v1_passthrough") else [{"role": "context", "content": dict(CTX)}]
     state = {} if v2 else None
     for t, msg in enumerate(case["turns"]):
         history.append({"role": "user", "content": msg})
@@ -429,23 +454,212 @@ def run_conversation(case, cfg_cache):
 def e2e_worker(inp, outp):
     sys.path.insert(1, C.REPO)
     import logging
+    import threading
 
     logging.disable(logging.CRITICAL)
     cases = json.load(open(inp))
     cache = {}
     results = []
-    with open(outp + ".progress", "w") as prog:
-        for i, case in enumerate(cases):
-            prog.seek(0)
-            prog.write(json.dumps({"current": i, "case": case}))
-            prog.truncate()
-            prog.flush()
-            t0 = time.time()
-            r = run_conversation(case, cache)
-            r["s"] = round(time.time() - t0, 3)
-            results.append(r)
+    cur = {"i": -1, "t": time.time()}
+
+    def save_progress():
+        tmp = outp + ".progress.tmp"
+        with open(tmp, "w") as f:
+            json.dump({"current": cur["i"], "done": results}, f)
+        os.replace(tmp, outp + ".progress")
+
+    def watchdog():
+        # a case that does not come back within CASE_TIMEOUT is a hang: the process is killed
+        # (an in-process exception would be swallowed by the interpreter's `except Exception`)
+        while True:
+            time.sleep(1)
+            if cur["i"] >= 0 and time.time() - cur["t"] > CASE_TIMEOUT:
+                os._exit(3)
+
+    threading.Thread(target=watchdog, daemon=True).start()
+    for i, case in enumerate(cases):
+        cur["i"], cur["t"] = i, time.time()
+        save_progress()
+        r = run_conversation(case, cache)
+        r["s"] = round(time.time() - cur["t"], 3)
+        results.append(r)
+    cur["i"] = -1
     with open(outp, "w") as f:
         json.dump(results, f)
+
+
+# ---------------------------------------------------------------------------------------
+# hostile corpus
+
+LONG = 60000
+
+
+def hostile_corpus():
+    """(tag, text) - the fixed hostile corpus of the property statement."""
+    c = []
+
+    def add(tag, *texts):
+        for t in texts:
+            c.append((tag, t))
+
+    add("empty", "", " ", "\n", "\n\n\n", "   \n\t\n  ", "\t", "\r\n", "\r")
+    add("quotes", '"', '""', '"""', "'", "''", '"\n', '\n"', '" "', '"a', 'a"', "`", "“x”", '"\n"', '  "', '""""')
+    add("prefix", "user ", "user", "bot ", "bot", "bot\n", 'bot "', "bot ,", 'bot "hello"', "bot ,x", "  bot x", "User:", "User: hi",
+        "Bot message: ", "Bot intent: ", "User intent: ", "user intent: ", "bot intent: ", "bot action: ", "user action: ",
+        "User message: ", "bot:", "Bot: hi", "USER x", "BOT x", "user\tx", "bot\tx", "assistant: hi", "user intent:", "bot intent:",
+        "user intent: user x\nbot intent: bot y", "bot intent: bot y\nbot action: ", "bot action:\n  and x", "bot action: x\n  or y",
+        'user "hi"\n  express greeting\nbot express greeting\n  "Hey"')
+    add("ctxvar", "bot $secret", "bot $event", "bot $x", "bot $generation_options", "bot $", "bot $$", "bot $last_user_message",
+        "bot $relevant_chunks_sep", "  $secret", "user $secret")
+    add("colang1", "define flow x\n  user a\n  bot b", 'define user x\n  "y"', 'define bot x\n  "{{ 7*191 }}"', "define flow", "define",
+        "execute foo", "do foo", "bot a\nexecute foo\nbot b", "if $x\n  bot a", "if $x", "while True\n  bot a", "else", "when x", "stop", "abort",
+        "...", "$x = 1", "$x = ...", "bot a\nbot b\n!!!", 'bot a\n  "unterminated', "bot a and b", "goto x", "label x", "meta", "bot a\n\n\nbot b",
+        "bot a\n    bot b", "\tbot a", "bot a\n  bot b\n bot c", "bot a\nuser b\nbot c", "bot a\nuser ...\nbot c", "event Foo",
+        "bot a\n$y = execute foo(x=$secret)", "bot a\nbot $secret", "set $x = 1", "break", "continue", "return", "pass", "any", "bot a\nelse\nbot b",
+        "bot a\ndefine flow y\n  bot z", "bot a\n# comment", "#", "# only comment", "bot a:", 'bot a\n  "x"\n  "y"', "user a\nbot b",
+        "define subflow x\n  bot a", "bot a\ndo x", "bot a\nstop", 'bot "quoted intent"', "bot a, b", 'bot a"b', "bot (a)", "bot a-b", "bot 1", "bot a\\nb")
+    add("colang2", 'flow main\n  bot say "x"', "import core", "@active\nflow x\n  bot say 'x'", "await UtteranceBotAction(script=$secret)", "bot say $secret",
+        'bot say "{$x}"', 'send FinishFlow(flow_id="main")', "user said something", "bot action: bot say $secret", 'bot action: bot say "{$x}"',
+        "bot action: abort", 'bot action: send StopFlow(flow_id="main")', "bot action: while True\n  and x", "bot action: $y = 1/0", "bot action: (",
+        "bot action: await nonexistent flow", "bot action: match Never()", "bot action: start main", 'bot intent: main\nbot action: bot say "x"',
+        'bot intent: bot say\nbot action: bot say "x"', "user intent: main", "user intent: user said", "main", "user said", "bot say",
+        "user intent: ", 'user x" and "y', "user a and b or c as d (e) - 12", "  flow x", "flow", "flow ", "flow x\nflow y", "  ...", "  await x\n  ...",
+        '  user said "x"', 'bot action: bot say "a"\nbot action: bot say "b"', '```\nbot say "x"\n```', '  bot say "x"\nflow other\n  bot say "y"',
+        '  $z = ..."nested"\n  bot say $z', "  activate main", '  send StartFlow(flow_id="main")', "  log 1\n" * 50, '  bot say "a"\n' * 30)
+    add("template", "{{ 7*191 }}", "{{ secret }}", "{% for i in range(10) %}x{% endfor %}", "{{ ''.__class__.__mro__ }}", "{%", "{{", "}}", "{# #}", "$secret",
+        "${secret}", "{$x}", "{$secret}", "$", "{", "}", "$ ", "{{ 7*191", "7*191 }}", "{{secret}}", "{{ x }}", "$x", "$x.y", "$x[0]", "{{ user_name }}",
+        "{% raw %}", "{% include 'x' %}", "{{ 1/0 }}", "{{ undefined_thing.y }}", "<<STREAMING[x]>>", 'Bot message: "<<STREAMING[abc]>>"',
+        '"Result {{ 7*191 }} and $secret and {$x} and {{ secret }}."', '  "Result {{ 7*191 }} and $secret and {$x} and {{ secret }}."',
+        "Result {{ 7*191 }} and $secret and {$x} and {{ secret }}.", "'Result {{ 7*191 }} and $secret and {$x} and {{ secret }}.'",
+        'bot inform\n  "Result {{ 7*191 }} and $secret and {$x}."', '  ask x\nbot inform y\n  "Result {{ 7*191 }} and $secret and {$x}."',
+        'bot action: bot say "Result {{ 7*191 }} and $secret."', "\\n", "a\\nb", "\\", "\\\\n", "%s %d", "{0} {}", "%(secret)s")
+    add("control", "\x00", "a\x00b", "\x01\x02\x1b[31m", "a\rb", "\x0b\x0c", " ", " ", "﻿", "\x7f", "\x85", "bot\x00 x", "bot \x00", "\x1f",
+        "héllo wörld", "日本語", "\U0001F600", "‮abc", "á", "bot 日本", "user \U0001F600", "\ud800")
+    add("long", "a" * LONG, "bot " + "a" * LONG, "bot a\n" * 3000, '"' * 10000, "{{ " * 5000, "(" * 5000, "[" * 20000, " " * LONG, "\n" * LONG,
+        "bot a " * 10000, "a b " * 20000, "$a" * 10000, "user " * 10000, '"' + "a" * LONG, "x\n" * 20000, '  bot say "x"\n' * 2000, "-" * LONG)
+    add("value", "1e999999", "9" * 10000, "__import__('os').system('x')", "open('/etc/passwd').read()", "lambda: 1", "None", "True", "[1,2", "{'a': 1}",
+        "{1,2}", "b'x'", "1;", ";", "'a' 'b'", "f'{secret}'", "'" * 3 + "multi\nline" + "'" * 3, "'unterminated", "secret", "$secret;", "1 +", "-", "- 1",
+        "1 + 2j", "(1,)", "()", "Ellipsis", "'{$x}'", "'$secret'", '"{{ 7*191 }}"', "'Result {{ 7*191 }} and $secret and {$x}.'", "[$secret]",
+        "{'k': '{$x}'}", "1\n2", "'a'\n'b'", "  'a'  ", "'a' # c", "'\\x00'", "'\\ud800'", "0x10", "1_000", "float('nan')", "'a' * 3", "not True", "x = 1",
+        "$v = 'a'", "= 'a'")
+    return c
+
+
+_MUT_FRAGS = ['"', "\n", "\nuser ", "\nbot ", "$secret", "{{ 7*191 }}", "{$x}", "\x00", "  ", "\t", "#", ":", "'", "\\n", "...", " and ", " or ", "(", ")",
+              '\nuser "x"', "define flow y\n", "flow z\n", "User: ", ",", "é"]
+
+
+def mutate_text(rng, s):
+    k = rng.randrange(9)
+    i = rng.randrange(len(s) + 1)
+    if k == 0 and s:
+        j = rng.randrange(len(s))
+        return s[:j] + s[j + 1:]
+    if k == 1 and s:
+        j = rng.randrange(len(s))
+        return s[:j] + s[j] * 2 + s[j:]
+    if k == 2:
+        return s[:i]
+    if k == 3:
+        return s[i:]
+    if k == 4:
+        return s.swapcase()
+    if k == 5:
+        return s.replace('"', "'") if '"' in s else s.replace(" ", "  ")
+    if k == 6:
+        return "\n".join("  " + ln for ln in s.split("\n"))
+    if k == 7:
+        return "\n".join(ln.lstrip() for ln in s.split("\n"))
+    return s[:i] + rng.choice(_MUT_FRAGS) + s[i:]
+
+
+MUT_BASES = [
+    ("single_call", '  express greeting\nbot express greeting\n  "Hey there!"'),
+    ("next_steps", "bot acknowledge the date\nbot confirm appointment"),
+    ("next_steps", "bot ask name\nuser inform name\n$name = ...\nbot express greeting"),
+    ("v2_flow_continuation", 'bot intent: bot provide help\nbot action: bot say "Sure {$x}"'),
+    ("bot_message", '  "Result {{ 7*191 }} and $secret and {$x} and {{ secret }}."'),
+    ("v2_value", "'Result {{ 7*191 }} and $secret and {$x}.'"),
+]
+
+
+def mutations(rng, n):
+    """(tag, text): mutations of well-formed outputs of every call kind."""
+    out = []
+    bases = [(k, v) for k, v in sorted(GOOD.items())] + MUT_BASES
+    for _ in range(n):
+        kind, base = rng.choice(bases)
+        t = base
+        for _ in range(rng.choice([1, 1, 2, 3])):
+            t = mutate_text(rng, t)
+        out.append(("mut:" + kind, t))
+    return out
+
+
+# ---------------------------------------------------------------------------------------
+# end-to-end driver (parent side): batches in child processes under `timeout`
+
+CASE_TIMEOUT = 60
+
+
+def _run_batch(idx, cases):
+    """Run one batch in a child; a case that hangs/crashes the child is reported and skipped."""
+    os.makedirs(WORK, exist_ok=True)
+    results = [None] * len(cases)
+    todo = list(range(len(cases)))
+    attempt = 0
+    while todo:
+        attempt += 1
+        inp = os.path.join(WORK, f"b{idx}_{attempt}.in.json")
+        outp = os.path.join(WORK, f"b{idx}_{attempt}.out.json")
+        for p in (outp, outp + ".progress"):
+            if os.path.exists(p):
+                os.remove(p)
+        with open(inp, "w") as f:
+            json.dump([cases[i] for i in todo], f)
+        budget = 120 + CASE_TIMEOUT * 2 + 3 * len(todo)
+        rc, log = C.sh(["timeout", "-k", "5", str(budget), C.PY, "-m", "harness.c17", "--e2e-worker", inp, outp],
+                       cwd=C.VERIF, env=C.impl_env(), timeout=budget + 30)
+        if os.path.exists(outp):
+            rs = json.load(open(outp))
+            for i, r in zip(todo, rs):
+                results[i] = r
+            return results
+        cur = None
+        try:
+            cur = json.load(open(outp + ".progress"))
+        except Exception:
+            pass
+        if cur is None or cur.get("current", -1) < 0:
+            for i in todo:
+                results[i] = {"replies": [], "calls": [], "fail": {"kind": "worker-died", "rc": rc, "log": log[-500:]}}
+            return results
+        k = cur["current"]
+        for i, r in zip(todo[:k], cur.get("done", [])):
+            results[i] = r
+        results[todo[k]] = {"replies": [], "calls": [],
+                            "fail": {"kind": "hang" if rc in (124, 137, 3) else "crash", "rc": rc, "log": log[-300:]}}
+        todo = todo[k + 1:]
+    return results
+
+
+def run_e2e(cases, batch=24):
+    """cases -> results (same order), in parallel child processes."""
+    from concurrent.futures import ThreadPoolExecutor
+
+    write_cfgs()
+    nb = max(1, (len(cases) + batch - 1) // batch)
+    groups = [list(range(len(cases)))[i::nb] for i in range(nb)]   # interleaved: slow cases spread out
+    results = [None] * len(cases)
+
+    def one(gi):
+        return gi, _run_batch(gi, [cases[i] for i in groups[gi]])
+
+    with ThreadPoolExecutor(max_workers=C.NPROC) as ex:
+        for gi, rs in ex.map(one, range(nb)):
+            for i, r in zip(groups[gi], rs):
+                results[i] = r
+    return results
 
 
 if __name__ == "__main__":
